@@ -4,7 +4,7 @@ from .common import wint
 from .x_arith import mk, fmt_of, mk_hist
 
 
-def observe_bitwise(fx, np, props, op, tx, cxs, ty=None, cys=None, mask=None, side='right', scalar=False, hist=None):
+def observe_bitwise(fx, np, props, op, tx, cxs, ty=None, cys=None, mask=None, side='right', scalar=False, hist=None, shape=None):
     """op in not/and/or/xor.  y: a scalar Fxp of format ty (codes cys, one per x element => element-wise scalar calls are
     made by the caller) or an integer mask on either side."""
     row = {'k': 'bitwise', 'p': list(props), 'op': op, 'x': dict(zip('swf', (bool(tx[0]), tx[1], tx[2]))),
@@ -12,9 +12,11 @@ def observe_bitwise(fx, np, props, op, tx, cxs, ty=None, cys=None, mask=None, si
            'ykind': 'fxp' if ty else ('mask' if mask is not None else 'none'), 'side': side,
            'route': op + ('/' + ('fxp' if ty else 'mask-' + side) if op != 'not' else ''), 'carrier': 'scalar' if scalar else 'array'}
     try:
-        X = mk_hist(fx, np, tx, cxs[0] if scalar else cxs, None, mode=hist) if hist else mk(fx, np, tx, cxs[0] if scalar else cxs)
+        X = mk_hist(fx, np, tx, cxs[0] if scalar else cxs, shape, mode=hist) if hist else mk(fx, np, tx, cxs[0] if scalar else cxs, shape)
         if hist:
             row['route'] = row['route'] + '/hist-' + hist
+        if shape is not None:
+            row['carrier'] = 'array%dd' % len(shape)
         if op == 'not':
             Z = ~X
             cy = 0
@@ -31,6 +33,8 @@ def observe_bitwise(fx, np, props, op, tx, cxs, ty=None, cys=None, mask=None, si
         cl = [cxs[0]] if scalar else list(cxs)
         if common.codes_of(X) != cl:
             raise AssertionError('operand modified')
+        if shape is not None and tuple(np.shape(Z.val)) != tuple(shape):
+            raise AssertionError('result shape %r for operand shape %r' % (np.shape(Z.val), shape))
         return dict(row, z=fmt_of(Z), cx=[wint(c) for c in cl], cy=wint(cy), cz=[wint(c) for c in common.codes_of(Z)], v=[0] * len(cl))
     except Exception as ex:
         return dict(row, k='error', err=type(ex).__name__, msg=str(ex)[:200])
